@@ -89,9 +89,13 @@ def run(ctx):
             ctx.equiv("R12.2", tag + ".direction", r.items["direction"], dref, f_u10.loc(),
                       "convention switch (270 - dir) mod 360 only for coming_from_clockwise_north", norm=norm_sel, interp=it)
         # unknown convention raises
+        # (the raise may sit in a helper the convention switch was moved to: compare with a call that names a known convention)
         n0 = len(it.raises)
-        it.call_function(f_u10, [me, "peak", fmax, power, I, beta, kappa, g, nb, "some_other_convention"], {}, None)
-        new = [r for r in it.raises[n0:] if r.func == f_u10.qualname]
+        it.call_function(f_u10, [me, "peak", fmax, power, I, beta, kappa, g, nb, "going_to_counter_clockwise_east"], {}, None)
+        n_known = len(it.raises) - n0
+        n0 = len(it.raises)
+        r_unknown = it.call_function(f_u10, [me, "peak", fmax, power, I, beta, kappa, g, nb, "some_other_convention"], {}, None)
+        new = it.raises[n0:] if len(it.raises) - n0 > n_known else []
         ctx.expect(bool(new), "R12.2", f"estimate_u10_from_spectrum[{cname},unknown convention]",
                    "an unknown direction convention raises instead of returning silently", f_u10.loc())
         # keyword call with defaults: default method peak, kappa 0.4, I 2.5, beta 0.012, g 9.81
@@ -185,8 +189,30 @@ def mean_method_rules(ctx, p, f_eq, fmax, power, nb):
         if oksel:
             t2 = t2.xreplace({sel[0] + i_min: IM}).xreplace({sel[0]: IM - i_min})
         sums = T.find_ops(t2, "loopsum")
-        oks = oksel and len(sums) == 1 and V not in t2.free_symbols
+        vsums = [x for x in T.find_ops(t2, "sum") if len(x.args) == 2 and x.args[1] == 0 and fname(x.args[0]) == "item"]
         detail = ""
+        if oksel and not sums and len(vsums) == 1 and V not in t2.free_symbols:
+            # vectorised form: gather all bins of the window along a new leading axis and sum over it
+            def drop_newaxis(t):
+                def fn(n):
+                    if fname(n) == "item" and isinstance(n.args[1], sp.Tuple) and NONE_T in n.args[1].args and all(
+                            a == NONE_T or fname(a) == "slc" for a in n.args[1].args):
+                        return n.args[0]
+                    return None
+                return T.rewrite(t, fn)
+            g = vsums[0].args[0]
+            cl = T.find_ops(g.args[1], "clip")
+            okv = T.equivalent(g.args[0], arr) == T.Verdict.EQUAL and len(cl) == 1 and cl[0].args[1] == 0 \
+                and T.equivalent(cl[0].args[2], nf - 1 - nb) == T.Verdict.EQUAL \
+                and T.equivalent(drop_newaxis(cl[0].args[0]), IM + op("arange", nb)) == T.Verdict.EQUAL
+            LS = sp.Symbol("window_sum")
+            t3 = t2.xreplace({vsums[0]: LS}).replace(lambda x: fname(x) == "reshape", lambda x: x.args[0])
+            okv = okv and sp.simplify(sp.diff(t3, LS) - 1 / nb) == 0
+            ctx.expect(okv, "R12.5", tag + f"[{nm}]",
+                       f"{nm} is the mean over the `number_of_bins` bins that start at the window with the smallest criterion "
+                       "(gathered along a leading axis and summed), bins clipped to the grid", f_eq.loc(), derived=T.show(vsums[0], 200))
+            continue
+        oks = oksel and len(sums) == 1 and V not in t2.free_symbols
         if oks:
             X, ii, rg = sums[0].args[:3]
             oks = rg == op("range", sp.Integer(0), nb) and fname(X) == "item" and T.equivalent(X.args[0], arr) == T.Verdict.EQUAL
